@@ -125,6 +125,7 @@ REMOTE = {
     "a": b"A" * 1000,
     "b": b"B" * 1000,
     "c": b"C" * 1000,
+    "d": b"D" * 1000,
     "big": b"G" * 4005,  # > both size limits; 4005 is a byte count that the GB-float config round trip truncates to 4004
 }
 for _i in range(12):
@@ -187,6 +188,14 @@ class ScriptedResource:
                 )
 
                 raise _RemoteResourceUriNotFound(f"{uri} not found")
+            if kind == "notfound_now":
+                # the remote object has disappeared (it may have been fetched successfully before)
+                from ocean_science_utilities.filecache.remote_resources import (
+                    _RemoteResourceUriNotFound,
+                )
+
+                world.fired.append(("dl", n, kind, name))
+                raise _RemoteResourceUriNotFound(f"{uri} not found (any more)")
             if kind == "raise_before":
                 world.fired.append(("dl", n, kind, name))
                 raise InjectedIOError(f"injected failure before write of {uri}")
@@ -607,8 +616,12 @@ class World:
         if kind == "val_raise":
             self.fired.append(("val", n, kind, os.path.basename(path)))
             raise InjectedIOError("injected failure in validation")
-        # like a real validator: open the file (IOError if it is gone) and accept non-empty content
-        return len(read_noatime(path)) > 0
+        # like a real validator: open the file (IOError if it is gone) and accept it only if it holds one of the
+        # remote objects (optionally post-processed); anything else is a corrupted / foreign file
+        data = read_noatime(path)
+        if data.endswith(b"|pp"):
+            data = data[:-3]
+        return any(data == v for v in REMOTE.values())
 
     def point(self, label, n):
         if self.sched is None:
@@ -626,12 +639,16 @@ class World:
         """Process death: the directory as it is *now* is what a restarted process finds."""
         snap = fresh_dir()
         shutil.rmtree(snap)
-        shutil.copytree(self.path, snap)
+        # the time stamps are taken BEFORE copying: reading a file to copy it moves its access time
+        stamps = {}
         for root, _, files in os.walk(self.path):
             for f in files:
                 st = os.stat(os.path.join(root, f))
-                _real_utime(os.path.join(snap, os.path.relpath(os.path.join(root, f), self.path)),
-                            (st.st_atime, st.st_mtime))
+                stamps[os.path.relpath(os.path.join(root, f), self.path)] = (st.st_atime, st.st_mtime)
+        shutil.copytree(self.path, snap)
+        for rel, times in stamps.items():
+            if os.path.exists(os.path.join(snap, rel)):
+                _real_utime(os.path.join(snap, rel), times)
         self.crashed = snap
         if self.sched is not None:
             self.sched.kill()
@@ -710,7 +727,8 @@ class World:
             if f == "file_cache_config.json" or not os.path.isfile(p):
                 continue
             b = read_noatime(p)
-            out[f] = (content_id(b), len(b), recency(p))
+            st = os.stat(p)
+            out[f] = (content_id(b), len(b), max(st.st_atime, st.st_mtime), st.st_atime, st.st_mtime)
         return out
 
     @staticmethod
